@@ -219,6 +219,7 @@ void CopyOptions(const Workload &from, Workload *to) {
   to->sym_method = from.sym_method;
   to->track = from.track;
   to->nofeat = from.nofeat;
+  to->xo = from.xo;
 }
 
 EnvPlan GeneratePlan(uint64_t seed, int size_class_max,
@@ -352,6 +353,21 @@ EnvPlan GeneratePlan(uint64_t seed, int size_class_max,
       for (int t = 0; t < 5; ++t)
         if (plan_xq[t] <= 0 || t == 1) op.opts.xq[t] = 0;
       p.ops.push_back(op);
+      if (scenario == 1 && op.kind == OP_SETOPTS && ro.Fork("supersede").Chance(1, 2)) {
+        // The same setters again with other values (later call wins).
+        Op op2 = op;
+        op2.a = 1;
+        Rng rs = ro.Fork("supersede-values");
+        op2.opts.xo = (op.opts.xo + 1 + static_cast<int>(rs.Below(3))) & 3;
+        for (int t = 0; t < 5; ++t)
+          if (op2.opts.qb[t] > 0)
+            op2.opts.qb[t] = op2.opts.qb[t] >= 18 ? 17 : op2.opts.qb[t] + 1;
+        if (op2.opts.espeed >= 0) {
+          op2.opts.espeed = (op2.opts.espeed + 3) % 11;
+          op2.opts.dspeed = op2.opts.espeed;
+        }
+        p.ops.push_back(op2);
+      }
     }
     return p;
   }
@@ -1021,7 +1037,14 @@ uint64_t RunPlan(const EnvPlan &p, const std::string &repo,
       Objects &fresh = *fresh_holder;
       switch (op.kind) {
         case OP_SETOPTS:
-          model.enc_opts[op.obj].push_back(op.opts);
+          // a == 1: the op sets exactly the option fields of the previous
+          // setopts on this encoder, with other values: the later setter
+          // overrides the earlier one, so a fresh object needs the last only.
+          if (op.a == 1 && !model.enc_opts[op.obj].empty()) {
+            model.enc_opts[op.obj].back() = op.opts;
+          } else {
+            model.enc_opts[op.obj].push_back(op.opts);
+          }
           ref[k].ran = 1;
           ref[k].ok = 1;
           continue;
